@@ -64,7 +64,8 @@ def finalize(ctx):
         if ctx.end_time > timeout:
             ctx.violate("C05", "end_after_timeout", f"SIMULATOR_END at {ctx.end_time} > loop_timeout {timeout}")
         wc = (flags["scheduler"] in worldgen.GREEDY and not flags.get("enforce_deadlines")
-              and not flags.get("drop_skipped_tasks") and world["meta"]["all_fit"])
+              and not flags.get("drop_skipped_tasks") and world["meta"]["all_fit"]
+              and not world["meta"].get("tight_timeout"))  # a timeout drawn inside the run ends it with work left, by design
         ctx.work_conserving = wc
         unfinished = []
         remaining_work = []
@@ -90,6 +91,8 @@ def finalize(ctx):
                             f"work-conserving feasible run ended at the timeout {timeout}; unfinished={unfinished[:6]}")
             elif unfinished:
                 ctx.violate("C05", "feasible_work_unfinished", f"ended at {ctx.end_time} with {unfinished[:8]}")
+        if ctx.end_time >= timeout and unfinished:
+            ctx.count("ended_at_timeout_with_work")
         if ctx.end_time < timeout and remaining_work:
             ctx.violate("C05", "ended_with_work_remaining",
                         f"ended at {ctx.end_time} < timeout {timeout} with {remaining_work[:8]}")
